@@ -260,10 +260,19 @@ func (w *world) sweep(p *proc) {
 		isHealthy[h] = true
 	}
 	var wg sync.WaitGroup
+	var panicMu sync.Mutex
+	panicked := ""
 	for wk := 0; wk < workers; wk++ {
 		wg.Add(1)
 		go func(wk int) {
 			defer wg.Done()
+			defer func() { // a crash of the code under test inside a worker is recorded, not fatal for the run
+				if r := recover(); r != nil {
+					panicMu.Lock()
+					panicked = fmt.Sprint(r)
+					panicMu.Unlock()
+				}
+			}()
 			m := map[string]*cls{}
 			order := make([]int, len(mem))
 			for s := wk; s < 65536; s += workers {
@@ -315,6 +324,9 @@ func (w *world) sweep(p *proc) {
 		}(wk)
 	}
 	wg.Wait()
+	if panicked != "" { // re-raised on the driver's goroutine, where it becomes a "Panic" record of the trace
+		panic("code under test panicked during concurrent Locations calls: " + panicked)
+	}
 	all := map[string]*cls{}
 	for _, m := range parts {
 		for k, c := range m {
